@@ -77,6 +77,10 @@ def generate(seed, batch):
     scen['inc'] = rng.choice([1.0, 1.0, rng.uniform(0.05, 1.0)])
     scen['shell']['thetaTdeg'] = rng.choice([0.0, 0.0, rng.uniform(-2.0, 2.0)])
     scen['shell']['betadeg'] = rng.choice([0.0, 0.0, 0.0, rng.uniform(0.05, 1.0)])
+    # which rigid-body amplitudes are prescribed: default (torsion + asymmetry), plus shortening, shortening without torsion, ...
+    scen['shell']['pdC'] = rng.random() < 0.3
+    scen['shell']['pdT'] = rng.random() < 0.75
+    scen['shell']['uTM'] = rng.choice([0.0, rng.uniform(-0.5, 0.5)])
     # re-definition between two evaluations at the same state (caches must follow the definition)
     scen['redefine'] = rng.choice([None, None, 'imperfection', 'imperfection_off', 'grid', 'method', 'inc'])
     scen['redef_seed'] = rng.getrandbits(32)
@@ -108,7 +112,12 @@ def shrink_candidates(scen):
         c = copy.deepcopy(scen)
         c['inc'] = 1.0
         yield c
-    for key in ('thetaTdeg', 'betadeg'):
+    for key, val in (('pdC', False), ('pdT', True)):
+        if scen['shell'].get(key, val) != val:
+            c = copy.deepcopy(scen)
+            c['shell'][key] = val
+            yield c
+    for key in ('thetaTdeg', 'betadeg', 'uTM'):
         if scen['shell'].get(key):
             c = copy.deepcopy(scen)
             c['shell'][key] = 0.0
@@ -163,6 +172,9 @@ def build_shell(scen):
     cc.with_kLL = sh['with_kLL']
     cc.thetaTdeg = sh.get('thetaTdeg', 0.0)
     cc.betadeg = sh.get('betadeg', 0.0)
+    cc.pdC = sh.get('pdC', False)
+    cc.pdT = sh.get('pdT', True)
+    cc.uTM = sh.get('uTM', 0.0)
     cc.forces.append([cc.H / 2., 0., 0., 0., -10.])
     imp = scen['imperfection']
     if imp:
@@ -259,7 +271,8 @@ def execute(scen):
         asym = np.abs(kT - kT.T).max()
         if not (asym <= 1e-12 * np.abs(kT).max()):
             raise Violation('J2-symmetry', dict(ctx, asym=float(asym), scale=float(np.abs(kT).max())))
-        prescribed = bool(sh.get('thetaTdeg') or sh.get('betadeg'))
+        prescribed = bool((sh.get('thetaTdeg') and sh.get('pdT', True)) or sh.get('betadeg') or (sh.get('pdC') and sh.get('uTM')))
+        bump(res['probes'], 'excluded_dofs_%s' % ''.join(str(x) for x in cc.excluded_dofs))
         perfect = scen['imperfection'] is None and not prescribed
         zero = np.zeros(nu)
         if prescribed:
@@ -294,25 +307,32 @@ def execute(scen):
         # ---- J5 directional derivative, Richardson-extrapolated central differences (exact for a cubic)
         h = 0.1 * max(scen['state']['amp'], 1e-3)
 
-        def cd(hh):
-            fp = fint_of(c + hh * d)
-            fm = fint_of(c - hh * d)
-            return (fp - fm) / (2 * hh), max(np.abs(fp).max(), np.abs(fm).max())
-        D1, s1 = cd(h)
-        D2, s2 = cd(h / 2)
-        fd = (4 * D2 - D1) / 3.0
-        lin = k0.dot(d)
-        lhs = fd - lin
-        rhs = kT.dot(d) - lin
-        noise = 256 * np.finfo(float).eps * max(s1, s2) / (h / 2) * 3
-        err = np.abs(lhs - rhs).max()
-        scale = max(np.abs(rhs).max(), np.abs(lhs).max())
-        res['steps'] += 4
-        if not (err <= 1e-6 * scale + noise):
-            v = Violation('J5-jacobian', dict(ctx, err=float(err), scale=float(scale), noise=float(noise), rel=float(err / max(scale, 1e-300)),
-                                              why='tangent times direction differs from the directional derivative of fint (non-linear part)'))
-            v.known_id = 'C17-J5-' + model
-            raise v
+        def j5_at(state, kT_state, label):
+            def cdl(hh):
+                fp = fint_of(state + hh * d)
+                fm = fint_of(state - hh * d)
+                return (fp - fm) / (2 * hh), max(np.abs(fp).max(), np.abs(fm).max())
+            D1, s1 = cdl(h)
+            D2, s2 = cdl(h / 2)
+            fd = (4 * D2 - D1) / 3.0
+            lin = k0.dot(d)
+            lhs = fd - lin
+            rhs = kT_state.dot(d) - lin
+            noise = 256 * np.finfo(float).eps * max(s1, s2) / (h / 2) * 3
+            err = np.abs(lhs - rhs).max()
+            scale = max(np.abs(rhs).max(), np.abs(lhs).max())
+            res['steps'] += 4
+            if not (err <= 1e-6 * scale + noise):
+                v = Violation('J5-jacobian', dict(ctx, state=label, err=float(err), scale=float(scale), noise=float(noise),
+                                                  rel=float(err / max(scale, 1e-300)),
+                                                  why='tangent times direction differs from the directional derivative of fint (non-linear part)'))
+                v.known_id = 'C17-J5-' + model
+                raise v
+            return scale, noise
+        scale, noise = j5_at(c, kT, 'random state')
+        # the undeformed free amplitudes are a state too (with an imperfection or prescribed amplitudes the
+        # non-linear part of the tangent does not vanish there)
+        j5_at(zero, kT_of(zero), 'zero state')
         bump(res['probes'], 'J5_checked')
         # ---- J7: re-definition between evaluations at the same state: the long-lived object must agree with a
         #      freshly built shell of the new definition (no stale cached matrices)
